@@ -43,7 +43,7 @@ typedef struct {
 	uint16_t msg_len;
 	unsigned char queue_len;
 
-	atomic_uchar num_free;
+	atomic_schar num_free; // signed: failing claims drive it below zero
 	atomic_uchar sendp;
 	atomic_uint full_flags;
 
